@@ -145,14 +145,24 @@ def snapshot(gfa):
         text = tuple(sorted(str(gfa).split("\n")))
     except Exception as e:
         text = ("<unprintable %s>" % type(e).__name__,)
-    return dict(text=text, version=gfa.version, names=tuple(sorted(map(str, gfa.names))), lines=tuple(sorted(per)))
+    # the declared datatype of tags is observable (get_datatype; it decides how a later value of that tag is written): recorded for the
+    # header and for every line, for the tags they carry and for a few probe names that failing operations use
+    probes = ("nn", "xx", "zz", "ab", "TS", "VN")
+    def dts(x):
+        try:
+            names = set(x.tagnames) | {p for p in probes if p in getattr(x, "_datatype", {})}
+            return tuple(sorted((t, str(x._datatype.get(t))) for t in names if t in x._datatype))
+        except Exception:
+            return ()
+    datatypes = tuple(sorted((ident(x), dts(x)) for x in reg + [gfa.header] if dts(x)))
+    return dict(text=text, version=gfa.version, names=tuple(sorted(map(str, gfa.names))), lines=tuple(sorted(per)), datatypes=datatypes)
 
 
 def snap_diff(a, b):
     out = []
-    for k in ("version", "names", "text", "lines"):
-        if a[k] != b[k]:
-            if k in ("text", "lines", "names"):
+    for k in ("version", "names", "text", "lines", "datatypes"):
+        if a.get(k) != b.get(k):
+            if k in ("text", "lines", "names", "datatypes"):
                 sa, sb = set(a[k]), set(b[k])
                 out.append("%s: -%s +%s" % (k, sorted(map(str, sa - sb))[:4], sorted(map(str, sb - sa))[:4]))
             else:
